@@ -76,6 +76,7 @@ class Ctx:
         self.extra = {}
         self.rule = ""
         self.budget_s = float(os.environ.get("VERIF_BUDGET_S", "0") or 0)
+        self.replay_mode = False
 
     @property
     def quick(self):
@@ -261,7 +262,9 @@ def finish(ctx, keep_work=False):
         print("  clause=%s detail=%s" % (fl.clause, str(fl.detail)[:400]))
     ctx.extra["failures_total"] = len(ctx.failures)
     ctx.extra["failures_matched_known"] = sum(len(v) for v in known_hit.values())
-    write_evidence(ctx, nviol)
+    if not ctx.replay_mode:
+        # a --replay run re-executes one stored case; it is not a check run and leaves the evidence alone
+        write_evidence(ctx, nviol)
     if not keep_work:
         shutil.rmtree(ctx.workdir, ignore_errors=True)
     print("%s %s tier=%s seed=%d states=%d transitions=%d impl_cases=%d violations=%d wall=%.1fs" % (
